@@ -226,6 +226,9 @@ def edit? : List String → Option Edit
   | ["msgs", "setc", i, c] => match i.toNat?, hexOr c with
     | some i, some c => some (.msgs (.setContent i c))
     | _, _ => none
+  | ["msgs", "setfc", i, b] => match i.toNat?, bool? b with
+    | some i, some b => some (.msgs (.setFc i b))
+    | _, _ => none
   | ["msgsrep", t] => match comp? t with
     | some (.tmsgs l) => some (.msgsReplace l)
     | _ => none
